@@ -46,9 +46,17 @@ QFails(s) ==
          /\ Range(q.allUids) = Uids(s) /\ Len(q.allUids) = Len(s.cols)
         THEN {} ELSE {"q-uids"})
 \cup (IF q.nact = (IF "sel" \in Types /\ Len(s.loc["sel"]) > 0 /\ s.loc["sel"][1] \in Uids(s)
-                   THEN Cardinality({e \in 1..s.nech : s.cols[ColOf(s, s.loc["sel"][1])].cells[e] # 0})
+                   THEN Cardinality({e \in 1..s.nech : s.cols[ColOf(s, s.loc["sel"][1])].cells[e] \notin {0, -999}})
                    ELSE s.nech)
         THEN {} ELSE {"q-active-count"})
+\* the per-sample answer (isActive) and the reported count describe the same set: a sample whose selection
+\* value is 0 or undefined (-999) is masked, every other one is active
+\cup (IF /\ Len(q.active) = s.nech
+         /\ \A e \in 1..s.nech :
+              q.active[e] = (IF "sel" \in Types /\ Len(s.loc["sel"]) > 0 /\ s.loc["sel"][1] \in Uids(s)
+                             THEN (IF s.cols[ColOf(s, s.loc["sel"][1])].cells[e] \in {0, -999} THEN 0 ELSE 1)
+                             ELSE 1)
+        THEN {} ELSE {"q-active-list"})
 
 Init == k = 0
 Next ==
